@@ -568,9 +568,12 @@ func (g *gen) value(typeName string, label string, depth int) *Value {
 			df := &ts.Fields[discIdx]
 			choice := 0 // present and matching
 			if g.o.Mode == Arbitrary && !g.o.NoAbsent && !(depth == 0 && g.o.ForceKey != "") {
-				choice = rapid.SampledFrom([]int{0, 0, 0, 0, 0, 0, 1, 1, 2, 3, 4}).Draw(g.rt, l+".shape")
+				choice = rapid.SampledFrom([]int{0, 0, 0, 0, 0, 0, 0, 0, 0, 0, 0, 0, 1, 1, 1, 1, 2, 2, 3, 3, 4, 4, 5}).Draw(g.rt, l+".shape")
 				if choice == 4 && tb.KeyType != "text" {
 					choice = 2
+				}
+				if choice == 5 && depth > 0 {
+					choice = 0
 				}
 			}
 			pick := func(lbl string) string {
@@ -615,6 +618,11 @@ func (g *gen) value(typeName string, label string, depth int) *Value {
 				setKey(v, ts, discIdx, k)
 				g.feat.Absent++
 				g.feat.Unregistered++
+			case 5: // present: a whole frame (of this or another protocol) used as the part - an envelope around a frame
+				setKey(v, ts, discIdx, pick(".key"))
+				x.O = g.value(frameOf(rapid.SampledFrom(ModuleIDs).Draw(g.rt, l+".envelope")), l, depth+1)
+				g.feat.Dyn++
+				g.feat.Mismatch++
 			case 3: // present, but of the type pinned for another key
 				key, other := pick(".key"), pick(".other")
 				setKey(v, ts, discIdx, key)
